@@ -46,7 +46,7 @@ static struct {
 	char *nwbase[RT_MAXT]; int wobjs[RT_MAXT][8]; int nwobjs[RT_MAXT]; int nwheap[RT_MAXT]; int nwinit[RT_MAXT];
 	waiter *wt[RT_MAXT]; int swnote[RT_MAXT], swlive[RT_MAXT]; long vgiven[RT_MAXT], vtaken[RT_MAXT];
 	int seen_notified[MAXOBJ]; int called[MAXOBJ]; int lpar[MAXOBJ]; int pending_new[RT_MAXT]; int notify_returned[MAXOBJ];
-	int ideal; int cz;
+	int ideal; int cz; nsync_mu *cmu;
 	int *cells;          /* client data for the happens-before oracle (C03), one cell per thread */
 	int hbdata;
 } S;
@@ -169,6 +169,11 @@ static void client (void *arg) {
 					pw[cnt] = &w[cnt]; cnt++;
 				}
 				S.nwobjs[t] = cnt; S.nwbase[t] = NULL; S.nwinit[t] = 0;
+				if (o->x == 2) {
+					/* the caller's mutex is handed to nsync_wait_n, which must give it back held */
+					r = nsync_wait_n (S.cmu, (void (*) (void *)) &nsync_mu_lock, (void (*) (void *)) &nsync_mu_unlock, deadline (o->dl), cnt, pw);
+					if (rt_ideal_holder ? rt_ideal_holder (S.cmu) != t + 1 : rt_held_by (S.cmu, t) != 1) rt_violation ("O-ret", "nsync_wait_n returned %d without holding the caller's mutex", r);
+				} else
 				r = nsync_wait_n (NULL, NULL, NULL, deadline (o->dl), cnt, pw);
 				if (r < cnt) {
 					int id = S.wobjs[t][r], x = id, cause = 0;
@@ -198,6 +203,10 @@ static void client (void *arg) {
 				if (r == ECANCELED && S.hbdata) { int byn = 0; for (k = 0, x = a; k < MAXOBJ && x != 0; k++, x = S.lpar[x]) if (S.called[x]) byn = 1; if (byn) rd_cells (); }   /* notifying happens before the cancelled return (single-notifier scenarios) */
 				if (must && r != ECANCELED) rt_violation ("O-lin", "nsync_sem_wait_with_cancel_ returned %d although nsync_note_notify of note %d or of an ancestor had returned before the call", r, a);
 				S.ret[t] = r;
+			} else if (!strcmp (o->name, "mlock")) {
+				nsync_mu_lock (S.cmu); S.ret[t] = 0;
+			} else if (!strcmp (o->name, "munlock")) {
+				nsync_mu_unlock (S.cmu); S.ret[t] = 0;
 			} else if (!strcmp (o->name, "cadd")) {
 				uint32_t r;
 				if (a < 0) wr_cell (t);
@@ -287,6 +296,7 @@ static void setup (const char *init) {
 		p = strstr (cur_init, "CV0="); S.v0 = p ? atoi (p + 4) : 0;
 		S.c = nsync_counter_new ((uint32_t) S.v0); rt_name (S.c, sizeof *S.c, "counter");       /* the counter that "waitn" object 9 stands for */
 		S.cz = S.v0 == 0;
+		S.cmu = rt_malloc (sizeof *S.cmu); nsync_mu_init (S.cmu); rt_name (S.cmu, sizeof *S.cmu, "client_mu");
 		if (strstr (cur_init, "swc.")) for (i = 0; i < S.n; i++) { char nm[16]; S.wt[i] = nsync_waiter_new_ (); snprintf (nm, sizeof nm, "waiter%d", i + 1); rt_name (S.wt[i], sizeof *S.wt[i], nm); }
 	}
 	for (i = 0; i < S.n; i++) { S.ret[i] = -1; rt_spawn (client, (void *) (long) i); }
@@ -386,7 +396,7 @@ static void obs (char *buf, size_t n) {
 			if (S.nwbase[i] && S.nwrec[i] && !(S.nwheap[i] && rt_is_freed (S.nwbase[i]))) for (j = 0; j < S.nwobjs[i] && j < S.nwinit[i]; j++) if (S.wobjs[i][j] == 9) v = (int) *(volatile uint32_t *) (S.nwbase[i] + sizeof (struct nsync_waiter_s) * (size_t) j + offsetof (struct nsync_waiter_s, waiting));
 			o += (size_t) snprintf (buf + o, n - o, "%s%d", i ? "," : "", v);
 		}
-		o += (size_t) snprintf (buf + o, n - o, "]");
+		o += (size_t) snprintf (buf + o, n - o, "] cmu=%d", rt_ideal_holder ? rt_ideal_holder (S.cmu) : 0);
 	} else if (S.kind == K_ONCE) {
 		o += (size_t) snprintf (buf + o, n - o, "once=[%u,%u] runs=[%d,%d] fdone=[%d,%d]", *(volatile uint32_t *) S.once[0], *(volatile uint32_t *) S.once[1],
 					S.runs[0], S.runs[1], S.done[0], S.done[1]);
